@@ -92,28 +92,54 @@ def _run(prop, tier, seed, replay, work, t0):
                         'states_generated': g['generated'], 'tables_emitted': len(tables),
                         'wall_s': round(g['wall'], 1)})
 
-    def one(shard):
-        out = os.path.join(work, f'shard{shard}.ndjson')
-        args = ['rec_ctx_worker.py', '--prop', prop, '--tier', tier, '--seed', str(seed), '--out', out,
-                '--tables', tpath]
+    # spec -> code: sessions of several same-label handles in call orders chosen by TLC (SessionSys.tla); every
+    # library call of every step is a TraceCtx event
+    spath = None
+    if prop != 'C15':
+        spath, sst, str_, sinfo = common.session_hists(work, tier, seed)
+        states += sst
+        transitions += str_
+        design_info.extend(sinfo)
+    nsess = 4 if tier == 'quick' else 16
+
+    def one(unit):
+        kind, shard = unit
+        out = os.path.join(work, f'{kind}{shard}.ndjson')
+        if kind == 'main':
+            args = ['rec_ctx_worker.py', '--prop', prop, '--tier', tier, '--seed', str(seed), '--out', out,
+                    '--tables', tpath]
+            n = nsh
+        else:
+            args = ['rec_session_worker.py', '--prop', prop, '--tier', tier, '--seed', str(seed), '--out', out,
+                    '--cases', spath, '--emit', 'ctx']
+            n = nsess
         if replay is not None:
             args += ['--only', str(replay['b'])]
         else:
-            args += ['--shard', str(shard), '--nshards', str(nsh)]
+            args += ['--shard', str(shard), '--nshards', str(n)]
         stats = json.loads(common.run_py(args, optimize=(shard % 2 == 1 and replay is None)).strip().splitlines()[-1])
+        stats['kind'] = kind
         if stats['events'] == 0:
             return stats, [], 0, {'distinct': 0, 'generated': 0}, out
         mism, consumed, r = common.validate_trace('TraceCtx', 'TraceCtx.cfg', out, work)
         if consumed != stats['events']:
-            raise common.MachineryError(f'shard {shard}: TLC consumed {consumed} of {stats["events"]} events')
+            raise common.MachineryError(f'{kind} shard {shard}: TLC consumed {consumed} of {stats["events"]} events')
         return stats, mism, consumed, r, out
 
-    results = common.pool_map(one, [0] if replay is not None else list(range(nsh)))
+    if replay is not None:
+        units = [('session' if replay['b'] >= 1000000 else 'main', 0)]
+    else:
+        units = [('main', i) for i in range(nsh)] + ([('session', i) for i in range(nsess)] if spath else [])
+    results = common.pool_map(one, units)
     own = ctxplan.OWN[prop]
-    tot = {'behaviours': 0, 'events': 0, 'nontrivial': 0, 'exhaustive_tables': 0, 'max_concepts': 0, 'max_width': 0}
+    tot = {'behaviours': 0, 'events': 0, 'nontrivial': 0, 'exhaustive_tables': 0, 'max_concepts': 0, 'max_width': 0,
+           'sessions': 0, 'session_steps': 0}
     samples = []
     foreign = 0
     for stats, mism, consumed, r, path in results:
+        if stats['kind'] == 'session':
+            tot['sessions'] += stats['behaviours']
+            tot['session_steps'] += stats['steps']
         for k in ('behaviours', 'events', 'nontrivial', 'exhaustive_tables'):
             tot[k] += stats[k]
         for k in ('max_concepts', 'max_width'):
@@ -154,7 +180,8 @@ def _run(prop, tier, seed, replay, work, t0):
         'traces_validated_against_impl': tot['behaviours'],
         'evaluations': tot['events'], 'distinct_nontrivial': tot['nontrivial'],
         'rule': 'one behaviour = one context built through the public constructor followed by the recorded calls of '
-                'the property\'s families; every event is validated by TLC against TraceCtx.tla. A behaviour is '
+                'the property\'s families, or one session of up to three same-label handles in a call order chosen by '
+                'TLC on SessionSys.tla; every event is validated by TLC against TraceCtx.tla. A behaviour is '
                 'counted non-trivial if its table is distinct and has at least one cross and one blank.',
         'samples': samples[:4],
         'exhaustive': tot['exhaustive_tables'] > 0,
@@ -163,6 +190,7 @@ def _run(prop, tier, seed, replay, work, t0):
                              'those shapes), enumerated by TLC and cross-checked against the number recorded',
         'max_concepts_in_a_lattice': tot['max_concepts'], 'max_objects_or_properties': tot['max_width'],
         'design_model_checking': design_info,
+        'tlc_chosen_sessions_replayed': tot['sessions'], 'tlc_chosen_session_steps': tot['session_steps'],
         'foreign_clause_mismatches': foreign,
         'known_finding_behaviours': nknown,
     }
